@@ -460,7 +460,7 @@ func lazyCases(o gridOpt) []lazyCase {
 
 // ---------------------------------------------------------------- the part
 
-const ruleAlias = "E1 alias/immutability: SUBJECTS = {list,binary,boolean,ascii,jis8,localized_str,i1..i8,u1..u8,f4,f8} x element counts {0,1,2,3,300} (thorough: +4,5,6,21,22,85,86,255,256,1000) x provenance {New*Item and shortcut constructors x argument shape {one slice, scalars via a retained []any, scalar+slice, two slices} x every accepted Go slice type ([]int..[]uint64,[]string,[]float32/64,[]byte,[]bool; quick: every type as one slice, the other shapes for the natural types), NewListItem/L from a retained []Item (also with nils, with decoded children, with the ToList result of a decoded list), string items from string([]byte), secs2.Decode (whole slice, sub-slice of a larger buffer; + an independent twin decode), EmptyItem} + messages x every body kind x count: DecodeHSMSMessage, DecodeHSMSPayload, DataMessageCodec.UnmarshalBinary, NewDataMessage, NewDataMessageFromHeader, NewDataMessage(decoded item), NewDataMessage(item of another decoded message), Derive().Build(), Derive().With*().Build(), Derive().WithItem().Build(), WithSessionID/WithSystemBytes/WithID/chained copies of decoded and of constructed messages (made before the lazily computed body state was touched) and the base observed against its copies, secs2.NewMessage, truncated-body messages; every control-message factory, its With* copies and its decoded forms. TARGETS per subject (one case each): every slice that went in (each argument, the []any/[]Item container, the decode input incl. the bytes around a sub-slice), every slice/array that came out (ToList entries, ToBinary, ToBoolean, ToInt, ToUint, ToFloat, ToBytes, AppendTo(nil|spare capacity|full buffer) result and capacity, AppendBinaryTo(same), message ToBytes, HeaderBytes, SystemBytes, AppendBodyTo(same three), Codec.MarshalBinary/ToBytes/HeaderBytes, Derive().Build() serialisations, the body item's outputs recursively), all outputs of list children (kidout), of every descendant (deepout), of every peer (twin decode, source list, base/copies), everything at once; for lazily decoded/encoded messages additionally the same input/peer mutations BEFORE the first observation (pre:), compared with an identical fresh subject. ORACLE: TRANSCRIPT (every public accessor/serialiser incl. *At for all indices <= 300, iterators, Get paths, ToSML; children recursively) is byte-identical before and after. Lazy once: first Item()/DecodeErr() by any of 6 sharers (base, 4 re-stamped copies, copy of a copy), then 3 rounds over all sharers: one Item pointer, one error value; a caller-defined counting Item is serialised at most once by a constructed message and its copies. non-trivial = the mutation overwrote at least one element"
+const ruleAlias = "E1 alias/immutability: SUBJECTS = {list,binary,boolean,ascii,jis8,localized_str,i1..i8,u1..u8,f4,f8} x element counts {0,1,2,3,300} (thorough: +4,5,6,21,22,85,86,255,256,1000) x provenance {New*Item and shortcut constructors x argument shape {one slice, scalars via a retained []any, scalar+slice, two slices} x every accepted Go slice type ([]int..[]uint64,[]string,[]float32/64,[]byte,[]bool; quick: every type as one slice, the other shapes for the natural types), NewListItem/L from a retained []Item (also with nils, with decoded children, with the ToList result of a decoded list), string items from string([]byte), secs2.Decode (whole slice, sub-slice of a larger buffer; + an independent twin decode), EmptyItem} + messages x every body kind x count: DecodeHSMSMessage, DecodeHSMSPayload, DataMessageCodec.UnmarshalBinary, NewDataMessage, NewDataMessageFromHeader, NewDataMessage(decoded item), NewDataMessage(item of another decoded message), Derive().Build(), Derive().With*().Build(), Derive().WithItem().Build(), WithSessionID/WithSystemBytes/WithID/chained copies of decoded and of constructed messages (made before the lazily computed body state was touched) and the base observed against its copies, secs2.NewMessage, truncated-body messages; every control-message factory, its With* copies and its decoded forms. TARGETS per subject (one case each): every slice that went in (each argument, the []any/[]Item container, the decode input incl. the bytes around a sub-slice), every slice/array that came out (ToList entries replaced by other items / by nil, ToBinary, ToBoolean, ToInt, ToUint, ToFloat, ToBytes, AppendTo(nil|spare capacity|full buffer) result and capacity, AppendBinaryTo(same), message ToBytes, HeaderBytes, SystemBytes, AppendBodyTo(same three), Codec.MarshalBinary/ToBytes/HeaderBytes, Derive().Build() serialisations, the body item's outputs recursively), all outputs of list children (kidout), of every descendant (deepout), of every peer (twin decode, source list, base/copies), everything at once; for lazily decoded/encoded messages additionally the same input/peer mutations BEFORE the first observation (pre:), compared with an identical fresh subject. ORACLE: TRANSCRIPT (every public accessor/serialiser incl. *At for all indices <= 300, iterators, Get paths, ToSML; children recursively) is byte-identical before and after. Lazy once: first Item()/DecodeErr() by any of 6 sharers (base, 4 re-stamped copies, copy of a copy), then 3 rounds over all sharers: one Item pointer, one error value; a caller-defined counting Item is serialised at most once by a constructed message and its copies. non-trivial = the mutation overwrote at least one element"
 
 func partAlias(c *vfw.Ctx) {
 	c.Level("exploration")
